@@ -94,4 +94,51 @@ func (*BytecodeCompiler).compileContinueExpressionNode
   ensures ghostdef mono: clen(c) >= old(clen(c))
   ensures ghostdef jkeep: forall k mathint :: jkey(c, 0) <= k && k < jkey(c, old(clen(c))) ==> ghost(jdepth, k) == old(ghost(jdepth, k))
   assert before emitJump#1: c.additionalAbortChecks ==> c.lastOpCode == bytecode.CHECK_ABORT
+// ---- nested compilers carry the flag ---------------------------------------------------------
+// Method bodies, closures, go blocks, defer blocks and namespace bodies are compiled by
+// compilers of their own.  A nested compiler that does not carry the abort-check flag of the
+// compiler that created it emits no CHECK_ABORT at all: a loop inside a method could not be
+// cancelled.  Checked where each nested compiler starts compiling (the closure, go and defer
+// sites are in verif_contracts_depth.go, next to their stack accounting).
+func (*BytecodeCompiler).CompileMethodBody
+  props C33
+  nosafety
+  partial
+  requires c != nil
+  assert before compileMethodBody#1: methodCompiler.additionalAbortChecks == c.additionalAbortChecks
+
+func (*BytecodeCompiler).singletonBlockIsCompilable
+  props C33
+  nosafety
+  partial
+  requires c != nil
+  assert before compileNamespace#1: singletonCompiler.additionalAbortChecks == c.additionalAbortChecks
+
+func (*BytecodeCompiler).mixinIsCompilable
+  props C33
+  nosafety
+  partial
+  requires c != nil
+  assert before compileNamespace#1: mixinCompiler.additionalAbortChecks == c.additionalAbortChecks
+
+func (*BytecodeCompiler).moduleIsCompilable
+  props C33
+  nosafety
+  partial
+  requires c != nil
+  assert before compileNamespace#1: modCompiler.additionalAbortChecks == c.additionalAbortChecks
+
+func (*BytecodeCompiler).interfaceIsCompilable
+  props C33
+  nosafety
+  partial
+  requires c != nil
+  assert before compileNamespace#1: ifaceCompiler.additionalAbortChecks == c.additionalAbortChecks
+
+func (*BytecodeCompiler).classIsCompilable
+  props C33
+  nosafety
+  partial
+  requires c != nil
+  assert before compileNamespace#1: classCompiler.additionalAbortChecks == c.additionalAbortChecks
 @*/
